@@ -39,7 +39,8 @@ def depends_on(expr, names, env, depth=0):
 
 def run(ctx: core.Ctx) -> int:
     for rid, t in (("GATE-REL", "eigenvalue threshold depends on the matrix"), ("SYM-REL", "symmetry tolerance depends on the matrix magnitude"),
-                   ("PSD-FORM", "prediction covariance is a sum of congruences of P and M"), ("GATE-SITES", "no other positivity / symmetry gate in the filter")):
+                   ("PSD-FORM", "prediction covariance is a sum of congruences of P and M"), ("GATE-SITES", "no other positivity / symmetry gate in the filter"),
+                   ("GATE-SYM", "the computed innovation covariance is symmetrised before it is validated")):
         ctx.rule(rid, t)
     prog = scenarios.program(ctx)
     mod = prog.modules["python"]
@@ -134,6 +135,60 @@ def run(ctx: core.Ctx) -> int:
                        func="ExtendedKalmanFilter.sensor_model", construct="posterior covariance form",
                        msg=f"the posterior covariance {form!r} is none of P - K.H.P, (I - K.H).P, Joseph form")
     ctx.floor("UPD-SHAPE", nupd, 1, "update return paths")
+    # GATE-SYM: the innovation covariance S = H.P.H^T + Q is symmetrised before it meets the gate.  Its products round relative to |H|^2.|P|, the
+    # gate's tolerance is relative to |S|; after an update has deflated P along the rows of H the former exceeds the latter by orders of magnitude and
+    # the filter refused its own second update (defect D13, triage/defects.py; repaired by 8fbcf08).  Decided here: the value handed to the gate and
+    # recorded is (X + X^T) / 2 of the computed X -- in the normal form, the array stored under sensor_prediction_uncertainty carries the factor 1/2
+    # on a sum whose two halves are each other's transposes.
+    ctx.rule("GATE-SYM", "the computed innovation covariance is symmetrised, (X + X^T)/2, before it is validated and recorded")
+    sfn = core.need(core.find_func(core.need(core.find_class(mod, "ExtendedKalmanFilter"), "python.ExtendedKalmanFilter"), "sensor_model"),
+                    "ExtendedKalmanFilter.sensor_model")
+    from .. import normast as _na
+    sfn_n = _na.Normaliser(_na.class_resolver(mod, core.find_class(mod, "ExtendedKalmanFilter"), module_funcs=False)).function(sfn)
+    gates = [c for c in ast.walk(sfn_n) if isinstance(c, ast.Call) and ast.unparse(c.func).split(".")[-1] == "assert_valid_covariance" and c.args]
+    computed = [g for g in gates if not (isinstance(g.args[0], ast.Attribute) and g.args[0].attr == "data")]
+    ngs = 0
+    defs_ = {}
+    for a in ast.walk(sfn_n):
+        if isinstance(a, ast.Assign):
+            for t in a.targets:
+                if isinstance(t, ast.Name):
+                    defs_.setdefault(t.id, []).append(a.value)
+
+    def _symmetrised(e, depth=0):
+        """(X + X.T) / 2, 0.5 * (X + X.transpose()), (X + X.T) * 0.5 -- X any expression, both halves the same X"""
+        if isinstance(e, ast.Name) and len(defs_.get(e.id, [])) == 1 and depth < 3:
+            return _symmetrised(defs_[e.id][0], depth + 1)
+        half = None
+        if isinstance(e, ast.BinOp) and isinstance(e.op, ast.Div) and isinstance(e.right, ast.Constant) and e.right.value in (2, 2.0):
+            half = e.left
+        if isinstance(e, ast.BinOp) and isinstance(e.op, ast.Mult):
+            for a_, b_ in ((e.left, e.right), (e.right, e.left)):
+                if isinstance(a_, ast.Constant) and a_.value == 0.5:
+                    half = b_
+        if not (isinstance(half, ast.BinOp) and isinstance(half.op, ast.Add)):
+            return False
+
+        def base(x):
+            if isinstance(x, ast.Attribute) and x.attr == "T":
+                return ast.unparse(x.value), True
+            if isinstance(x, ast.Call) and isinstance(x.func, ast.Attribute) and x.func.attr == "transpose" and not x.args:
+                return ast.unparse(x.func.value), True
+            if isinstance(x, ast.Call) and ast.unparse(x.func) in ("np.transpose", "numpy.transpose") and len(x.args) == 1:
+                return ast.unparse(x.args[0]), True
+            return ast.unparse(x), False
+        (l, lt), (r, rt) = base(half.left), base(half.right)
+        return l == r and lt != rt
+    for g in computed:
+        ngs += 1
+        a0 = g.args[0]
+        oks = _symmetrised(a0)
+        ctx.oblige("GATE-SYM", f"{F}:ExtendedKalmanFilter.sensor_model", f"gated `{ast.unparse(a0)[:40]}` is symmetrised", oks, file=F,
+                   func="ExtendedKalmanFilter.sensor_model", construct=f"gate argument {ast.unparse(a0)[:40]}",
+                   msg=f"the computed matrix `{ast.unparse(a0)[:60]}` is handed to assert_valid_covariance as the products left it: their rounding asymmetry "
+                       f"is relative to |H|^2.|P|, the gate tolerates asymmetry relative to |S|; once an update has deflated P along H the filter refuses "
+                       f"its own next update (AssertionError: Sensor Uncertainty)", line=g.lineno)
+    ctx.floor("GATE-SYM", ngs, 1, "computed matrices gated in sensor_model (the innovation covariance)")
     # GATE-SITES: other eigen / cholesky / allclose-based asserts in the filter class
     cls = core.need(core.find_class(mod, "ExtendedKalmanFilter"), "python.ExtendedKalmanFilter")
     others = []
